@@ -542,13 +542,19 @@ def rand_packing_attrs(rng, stored):
     attrs = {}
     which = rng.choice(["both", "both", "both", "scale", "offset", "none"])
     atypes = ["f4", "f8", "f8", "i2", "i4"]
+    unsigned = stored in ("i1", "i2", "i4") and rng.random() < 0.3
+    if unsigned:
+        # (a scale of one / offset of zero casts the unsigned view to the attribute's type, which then has to hold it:
+        #  netcdf_indexer would wrap 65531 back to -5 for an int16 attribute where netCDF4-python keeps uint16 - a
+        #  difference in unpacking, C07's subject, identical lazily and eagerly)
+        atypes = ["f8"] if stored == "i4" else ["f4", "f8", "f8", "i4"]
     if which in ("both", "scale"):
         t = rng.choice(atypes)
         attrs["scale_factor"] = A(rng.choice([1, 1, 2, 3] if t[0] == "i" else [1.0, 1.0, 0.5, 2.0, 0.25]), t)
     if which in ("both", "offset"):
         t = rng.choice(atypes)
         attrs["add_offset"] = A(rng.choice([0, 0, 7, -4] if t[0] == "i" else [0.0, 0.0, 10.5, -3.0]), t)
-    if stored in ("i1", "i2", "i4") and rng.random() < 0.3:
+    if unsigned:
         attrs["_Unsigned"] = "true"
     return attrs
 
@@ -1214,7 +1220,8 @@ def run(chk, model_ok):
         for i in bad[:20]:
             label, be, fetched = rlit_case[i]
             chk.fail("correspondence", "model-vs-impl:read",
-                     f"model and implementation disagree on which variables read fetches / keeps in memory: {label} ({be}): {fetched[:6]}",
+                     f"model and implementation disagree on which variables read fetches / keeps in memory, or on the data "
+                     f"type a Data object declares after read: {label} ({be}): fetched {fetched[:6]}",
                      {"correspondence": "C12.Run.check_read", "input": label, "observed": fetched[:10]})
 
     mark("reads_check_and_coq")
